@@ -41,9 +41,9 @@ Init == /\ st = Init0
 AnnEv(m, kind) ==
   LET cur == env.mseq[m]
       seq == CASE kind = "next" -> cur
-               [] kind = "dup" -> (cur + 65535) % 65536
-               [] kind = "stale" -> (cur + 65534) % 65536
-               [] kind = "skip" -> (cur + 1) % 65536
+               [] kind = "dup" -> (cur + 65535) % SeqMod
+               [] kind = "stale" -> (cur + 65534) % SeqMod
+               [] kind = "skip" -> (cur + 1) % SeqMod
   IN [e |-> "ann", p |-> 1, src |-> <<m, 1>>, seq |-> seq, g |-> GmOf(m), steps |-> StepsOf(m), kind |-> kind]
 
 Events ==
@@ -57,7 +57,7 @@ EnvStep(ev) ==
      LET m == ev.src[1]
          cur == env.mseq[m]
          fresh == ev.kind \in {"next", "skip"}
-         nxt == IF ev.kind = "next" THEN (cur + 1) % 65536 ELSE IF ev.kind = "skip" THEN (cur + 2) % 65536 ELSE cur
+         nxt == IF ev.kind = "next" THEN (cur + 1) % SeqMod ELSE IF ev.kind = "skip" THEN (cur + 2) % SeqMod ELSE cur
      IN [env EXCEPT !.mseq[m] = nxt, !.sent[m] = TRUE,
                     !.win[m][1] = [all |-> Cap(@.all + 1), fresh |-> Cap(@.fresh + (IF fresh THEN 1 ELSE 0)), seqs |-> @.seqs \cup {ev.seq}]]
   ELSE IF ev.e = "bmca" THEN
